@@ -154,7 +154,7 @@ class LinearInterpolator(NNBase):
         normal, pc = self._find_hyperplane(nloc)
         if np.any(normal[:, -1, :]) == 0:
             return gradient
-        gradient[:] = (-normal[:, :-1, :] / normal[:, -1, :]).squeeze().T
+        gradient[:] = np.swapaxes(-normal[:, :-1, :] / normal[:, -1:, :], 1, 2)
 
         grad = gradient * (self._tvr[:, np.newaxis] / self._tpr)
 
